@@ -13,7 +13,7 @@ RULE = (
     "__hash__, expression-builder equality (== returns a truthy node), equality that raises on foreign operands, list subclass (receiver named 'me'), dict subclass (receiver named 'this'), subclass inheriting the "
     "method, subclass overriding it, class with a functools.wraps-decorated method (plain, over an already tooled function, applied while a probe was active on the function), class with a property} with small "
     "keys so that equal-but-distinct receivers occur, 1-3 selectors (often on receivers sharing one method; some activated part-way through the history, some deactivated - most recent first - while calls go on) from {Cls.meth > v, "
-    "obj.meth > v, box.holder.obj.meth > v (dotted path), decorated method through class or object, property through "
+    "obj.meth > v, box.holder.obj.meth > v (dotted path), sweep > obj.meth > v (the receiver condition sits in an inner call of a call path; sweep calls the method on every instance), decorated method through class or object, property through "
     "the class}, and a random sequence of 4-14 calls over the population plus calls of a module-level function that "
     "shares the method's name.  Oracle per selector: class form -> one event per call that executes that function "
     "object; object form -> exactly the calls whose receiver `is` the object, each event carrying that receiver under "
@@ -133,6 +133,12 @@ def meth(x):
 
 class Box:
     pass
+
+def sweep(objs, x):
+    out = []
+    for o in objs:
+        out.append(o.pval if hasattr(type(o), "pval") else o.meth(x))
+    return out
 '''
 KINDS = ["Plain", "Eq", "EqNoHash", "Sub", "Over", "L", "D", "Deco", "Prop", "EqExpr", "EqSloppy", "DecoTooled", "DecoLate"]
 RECV = {"L": "me", "D": "this"}
@@ -210,7 +216,7 @@ def gen_case(rnd):
         if r < 0.25:
             sels.append(["class", kind])
         elif r < 0.85 and kind != "Prop":
-            sels.append(["object", j, rnd.choice(["direct", "dotted"])])
+            sels.append(["object", j, rnd.choice(["direct", "dotted", "direct", "under_sweep"])])
         else:
             sels.append(["class", kind])
     calls = []
@@ -219,6 +225,8 @@ def gen_case(rnd):
             calls.append(["namesake", 100 + c])
         else:
             calls.append(["inst", rnd.randrange(len(pop)), 100 + c])
+        if rnd.random() < 0.25:
+            calls.append(["sweep", 200 + c])
     # history: some probes are activated part-way, and probes are deactivated (most recent first)
     # while calls go on
     late = [si for si in range(1, len(sels)) if rnd.random() < 0.3]
@@ -258,9 +266,11 @@ def run_case(ns, case, res):
                 if sel[2] == "dotted":
                     box.holder.obj = pop[j]
                     text = "box.holder.obj.meth > v"
+                elif sel[2] == "under_sweep":
+                    text = f"sweep > o{j}.meth > v"
                 else:
                     text = f"o{j}.meth > v"
-                want = {"mode": "object", "obj": pop[j], "recv": RECV.get(kind, "self")}
+                want = {"mode": "object", "obj": pop[j], "recv": RECV.get(kind, "self"), "only_under_sweep": sel[2] == "under_sweep"}
                 for j2, o2 in enumerate(pop):
                     try:
                         if o2 is not pop[j] and o2 == pop[j]:
@@ -299,23 +309,33 @@ def run_case(ns, case, res):
                 if r != -call[1]:
                     problems.append({"problem": f"namesake meth({call[1]}) returned {r}"})
                 continue
-            j, x = call[1], call[2]
-            kind, k = case["pop"][j]
-            o = pop[j]
-            r = o.pval if kind == "Prop" else o.meth(x)
-            ev = expected_value(kind, k, x)
-            if r != ev:
-                problems.append({"problem": f"call on instance {j} ({kind}) returned {r}, expected {ev}"})
-            for p in probes:
-                w = p["want"]
-                if not p["active"]:
-                    continue
-                if w["mode"] == "class":
-                    if func_of(ns, kind) is w["fn"]:
-                        p["expected"].append((ev, None))
-                else:
-                    if o is w["obj"]:
-                        p["expected"].append((ev, id(o)))
+            if call[0] == "sweep":
+                x = call[1]
+                targets = list(range(len(pop)))
+                rs = ns["sweep"](pop, x)
+                under = True
+            else:
+                j, x = call[1], call[2]
+                targets = [j]
+                o = pop[j]
+                rs = [o.pval if case["pop"][j][0] == "Prop" else o.meth(x)]
+                under = False
+            for j, r in zip(targets, rs):
+                kind, k = case["pop"][j]
+                o = pop[j]
+                ev = expected_value(kind, k, x)
+                if r != ev:
+                    problems.append({"problem": f"call on instance {j} ({kind}) returned {r}, expected {ev}"})
+                for p in probes:
+                    w = p["want"]
+                    if not p["active"]:
+                        continue
+                    if w["mode"] == "class":
+                        if func_of(ns, kind) is w["fn"]:
+                            p["expected"].append((ev, None))
+                    else:
+                        if o is w["obj"] and (under or not w.get("only_under_sweep")):
+                            p["expected"].append((ev, id(o)))
         for p in probes:
             res.deciding += 1
             w = p["want"]
